@@ -1,3 +1,4 @@
+use std::collections::HashMap;
 use std::fs;
 
 use async_lsp::lsp_types::Url;
@@ -8,6 +9,8 @@ use ide::file_system::{FileId, FilePath, FileSet, FileSystem};
 pub struct Vfs {
     file_set: FileSet,
     next_file_id: u32,
+    // text of the documents the editor has opened; it takes precedence over the file on disk
+    open_documents: HashMap<FileId, String>,
 }
 
 impl Vfs {
@@ -17,6 +20,10 @@ impl Vfs {
 
     pub fn file_for_path(&self, path: &FilePath) -> Option<FileId> {
         self.file_set.file_for_path(path)
+    }
+
+    pub fn set_open_document(&mut self, file_id: FileId, text: String) {
+        self.open_documents.insert(file_id, text);
     }
 
     fn alloc_file_id(&mut self) -> FileId {
@@ -44,6 +51,14 @@ impl FileSystem for Vfs {
     }
 
     fn read_content(&self, file_path: &FilePath) -> Option<String> {
+        let open_document = self
+            .file_set
+            .file_for_path(file_path)
+            .and_then(|file_id| self.open_documents.get(&file_id));
+        if let Some(text) = open_document {
+            return Some(text.clone());
+        }
+
         let Ok(content) = fs::read_to_string(&file_path.0) else {
             tracing::info!("failed to read file: file_path={file_path:?}");
             return None;
